@@ -90,6 +90,7 @@ func (s *FileSeed) RegenerateIndex(ctx context.Context, n int, attempt int, seed
 	for i, c := range s.index.Chunks {
 		s.pos[c.ID] = append(s.pos[c.ID], i)
 	}
+	verifSeedIndex(s)
 
 	return nil
 }
